@@ -24,7 +24,8 @@ package main
 //     indexing is not an index into the received arguments; reported in notes).
 // A guard helper is a declared function whose body starts with
 //   if len(args) < g { return …, <call expression> }     (non-nil error constructor)
-// and whose last result type is an error type.
+// and whose last result type is an error type; g is a constant or an int parameter of the helper (then the call site must pass a
+// constant).
 //
 // request : {"repo":"/repo"}
 // reply   : {"entries":[{key,file,line,param,ir,uses,notes}], "helpers":{name:g}, "files":n}
@@ -65,8 +66,9 @@ type dgNeed struct {
 }
 
 type dgHelper struct {
-	idx int // index of the slice parameter
-	g   int
+	idx  int // index of the slice parameter
+	g    int // the bound when it is a constant
+	gIdx int // index of the int parameter that holds the bound (-1: constant)
 }
 
 type dgCtx struct {
@@ -428,6 +430,17 @@ func (c *dgCtx) helperCall(e ast.Expr) (int, bool) {
 	h, ok := c.helpers[name]
 	if !ok || h.idx >= len(call.Args) {
 		return 0, false
+	}
+	if h.gIdx >= 0 {
+		// the bound is an argument of the call: it must be a constant there
+		if h.gIdx >= len(call.Args) {
+			return 0, false
+		}
+		k, isConst := dgConst(call.Args[h.gIdx])
+		if !isConst || k < 0 {
+			return 0, false
+		}
+		h.g = k
 	}
 	a := call.Args[h.idx]
 	if off, ok := c.baseOf(a); ok {
@@ -800,8 +813,27 @@ func recogniseHelper(fd *ast.FuncDecl) (dgHelper, bool) {
 		return dgHelper{}, false
 	}
 	g, ok := dgConst(b.Y)
+	gIdx := -1
 	if !ok {
-		return dgHelper{}, false
+		// `len(args) < n` with n an int parameter of the helper
+		id, isId := b.Y.(*ast.Ident)
+		if !isId || id.Obj == nil {
+			return dgHelper{}, false
+		}
+		pos2 := 0
+		for _, f := range fd.Type.Params.List {
+			for _, nm := range f.Names {
+				if nm.Obj == id.Obj {
+					if t, isT := f.Type.(*ast.Ident); isT && t.Name == "int" {
+						gIdx = pos2
+					}
+				}
+				pos2++
+			}
+		}
+		if gIdx < 0 {
+			return dgHelper{}, false
+		}
 	}
 	ret, ok := ifs.Body.List[len(ifs.Body.List)-1].(*ast.ReturnStmt)
 	if !ok || len(ret.Results) == 0 {
@@ -818,7 +850,7 @@ func recogniseHelper(fd *ast.FuncDecl) (dgHelper, bool) {
 			}
 		}
 	}
-	return dgHelper{idx: idx, g: g}, true
+	return dgHelper{idx: idx, g: g, gIdx: gIdx}, true
 }
 
 func cmdDumpguards() {
